@@ -29,18 +29,18 @@ CLAUSES_OF = {
     "C11": {"world", "phase", "insts.domain", "insts.state", "insts.result", "failed"},
 }
 FAMILIES = {
-    "C04": ["dag"], "C05": ["sub", "restart"], "C06": ["dag", "tok", "sub"], "C07": ["dag"],
-    "C08": ["tok"], "C09": ["tok"], "C11": ["restart"],
+    "C04": ["dag"], "C05": ["sub", "restart"], "C06": ["dag", "tok", "sub", "stop"], "C07": ["dag"],
+    "C08": ["tok"], "C09": ["tok"], "C11": ["restart", "stop"],
 }
 PLAN_FILTER = {
     "C04": lambda n: n.startswith(("chain", "fork", "join", "diamond", "tok-dep", "tok-big", "tok3", "late", "resubmit-dep",
                                    "waitjob", "kill-restart", "rerun")),
-    "C05": lambda n: n.startswith(("dup", "resubmit", "rerun", "kill", "chain2-direct")),
+    "C05": lambda n: n.startswith(("dup", "resubmit", "rerun", "kill", "stop", "chain2-direct")),
     "C06": lambda n: True,
     "C07": lambda n: "fail" in n or n.startswith(("late", "diamond", "fork", "chain3", "resubmit", "rerun-failed")),
     "C08": lambda n: n.startswith(("tok", "kill-restart-tok")),
     "C09": lambda n: n.startswith(("tok", "kill-restart-tok")),
-    "C11": lambda n: n.startswith(("rerun", "kill")),
+    "C11": lambda n: n.startswith(("rerun", "kill", "stop")),
 }
 TINY = {
     "one": P({"a": {}}, [["submit", "a"], ["wait"]]),
@@ -93,11 +93,13 @@ def oracle(prop, result):
             for i, v in st["insts"].items():
                 if v["result"] != "-" and (v["result"] not in ("DONE", "ERROR") or v["result"] != v["state"]):
                     return k, f"waiting on {i} returns {v['result']} (state {v['state']})"
-            if st["waiter"] in ("ok", "failed"):
+            if st.get("exitmode") and not st.get("stopreq"):
+                return k, "the experiment is in exit mode although stop() was never called"
+            if st["waiter"] in ("ok", "failed") and not st.get("exitmode"):      # (after stop() an early return is the documented behaviour)
                 for i, v in st["insts"].items():
                     if v["pc"] not in ("reg", "regdone") and v["state"] not in ("DONE", "ERROR"):
                         return k, f"experiment wait returned while {i} is {v['state']}"
-        if prop == "C07" and st["waiter"] in ("ok", "failed"):
+        if prop == "C07" and st["waiter"] in ("ok", "failed") and not st.get("exitmode"):
             anyerr = any(v["state"] == "ERROR" and v["pc"] not in ("reg", "regdone") for v in st["insts"].values())
             if anyerr != (st["waiter"] == "failed"):
                 return k, f"exit reports {st['waiter']} with failed jobs={anyerr}"
